@@ -15,7 +15,11 @@ In (i) the file is written in every way laspy offers: LasData.write, LasWriter i
 LasHeader / LasData .add_extra_dim(s), all first or each followed by the assignment of its values, their scales / offsets come
 from caller-owned objects (fresh arrays, ONE buffer re-used for every dimension and overwritten after each call, views, float32 /
 int64 arrays, lists, tuples, one ExtraBytesParams object re-bound), the arrays the values came from are overwritten after the
-assignment, the caller's header is modified after it was handed to a writer.
+assignment, the caller's header is modified after it was handed to a writer. The header gets its extra dimensions through every
+entry point: LasHeader / LasData .add_extra_dim(s), a finished PointFormat object of the caller (PointFormat.add_extra_dimension)
+handed to LasHeader(point_format=..) / header.point_format = .. / header.set_version_and_point_format(..) on a header of another
+(version, format); onto a header without extra dimensions or one that had one of its own (replaced with the format, or removed
+through header / LasData .remove_extra_dim(s) after the others were added): record length and descriptors must be one story.
 In (ii) records may carry undocumented bytes beyond what the VLR describes, the file may have bytes of another producer after
 its last point record and between the points and the EVLRs.
   (iv) sessions: a file built by the specification encoder (bytes after the last point: padding, internal waveform data packets;
@@ -26,6 +30,11 @@ its last point record and between the points and the EVLRs.
        offset_to_point_data + i * record_length, the file's records followed by the values assigned to the new ones, the header
        block / VLRs / EVLRs it had. The model of the in-place routes (Model/RecordPlace.v: append_session over append_start
        translated from LasAppender.__init__, edit_record) is run on the same files: same bytes in the record range.
+       In read + edit + write and reader -> writer the caller may not pass on what the file had: its EVLRs are cleared / re-bound /
+       deleted by slice / popped / not given to the writer / only the first is kept, only the first m points are kept: the new
+       file must announce what IT has (EVLR count and offset, point count). The model of a header between two files
+       (Model/RecordPlace.v writer_evlr_fields over partial_reset_evlrs / write_evlrs_fields translated from LasHeader.partial_reset /
+       LasWriter.__init__ / LasWriter.write_evlrs) gives the EVLR fields of the written header: compared with the file's.
   (v)  records and headers from DIFFERENT sources: a header (built through the API, read from a file) and a record whose own point
        format declares a variant of the header's extra dimensions — the same list, the same set in another order, two names
        exchanged, a type of equal size, other scales / offsets, another name / description, one dimension split in two, another
@@ -789,11 +798,16 @@ def gen_points(rng, fmt, extra, trailing, n, exact_scaled):
 
 PATHS = ["write", "writer", "convert", "append"]
 CALLER_BUFFERS = ["fresh", "reused", "reused", "params-object"]
-ADD_ROUTES = ["header.add_extra_dim", "header.add_extra_dims", "las.add_extra_dim", "las.add_extra_dims", "interleaved"]
+ADD_ROUTES = ["header.add_extra_dim", "header.add_extra_dims", "las.add_extra_dim", "las.add_extra_dims", "interleaved",
+              "format.ctor", "format.setter", "format.set_both"]
+# format.*: the extra dimensions are added to a PointFormat object of the caller (PointFormat.add_extra_dimension) and the header gets
+# the finished object: LasHeader(version=, point_format=object) | header.point_format = object | header.set_version_and_point_format(
+# version, object) on a header of another (version, format); caller['stale_dim']: the header had an extra dimension of its own before
+FORMAT_ROUTES = [r for r in ADD_ROUTES if r.startswith("format.")]
 DESTS = ["bytesio", "bytesio", "path", "fileobj"]
 
 
-def make_case(rng, version, fmt, n, n_eb, laspy_side, idx, trailing=0, path="write", force_scaled=False, finite=False):
+def make_case(rng, version, fmt, n, n_eb, laspy_side, idx, trailing=0, path="write", force_scaled=False, finite=False, add=None, stale=None):
     minor = int(version[2])
     extra = rand_extra_dims(rng, n_eb, laspy_side)
     if force_scaled and extra:
@@ -859,6 +873,12 @@ def make_case(rng, version, fmt, n, n_eb, laspy_side, idx, trailing=0, path="wri
         case["caller"] = {"buffers": rng.choice(CALLER_BUFFERS), "buffer_type": rng.choice(["f8", "f8", "f8", "view", "f4", "i8", "list", "tuple"]),
                           "add": rng.choice(ADD_ROUTES), "clobber_values": rng.random() < 0.5,
                           "type_as": rng.choice(["str", "str", "dtype", "1str", "class"]), "multi_assign": rng.random() < 0.3}
+        if add is not None:
+            case["caller"]["add"] = add
+        if case["caller"]["add"].startswith("format."):
+            case["caller"]["stale_dim"] = rng.random() < 0.5 if stale is None else stale
+        elif stale or (stale is None and rng.random() < 0.25):
+            case["caller"]["stale_dim"] = True
         # how the header attributes are assigned (HEADER_ROUTES, in turn over the cases) and in which form a flag is given
         k = idx if isinstance(idx, int) else rng.randrange(len(HEADER_ROUTES))
         case["caller"].update(header_route=HEADER_ROUTES[k % len(HEADER_ROUTES)], flag_form=FLAG_FORMS[(k // len(HEADER_ROUTES) + k) % len(FLAG_FORMS)],
@@ -922,6 +942,17 @@ def make_cases(ctx, laspy_side):
         for f in range(11):
             v = rng.choice([v for v in lasio.VERSIONS if f in lasio.COMPAT[v]])
             cases.append(make_case(rng, v, f, rng.choice([1, 3, 9]), rng.choice([1, 2, 3]), True, idx, path="convert", force_scaled=True)); idx += 1
+        # the header gets a finished PointFormat object of the caller: through the constructor / the point_format setter /
+        # set_version_and_point_format; onto a header without extra dimensions or one that had its own (with and without new ones)
+        for j, r in enumerate(FORMAT_ROUTES):
+            for q, (stale, neb) in enumerate([(False, rng.choice([1, 2, 3])), (True, rng.choice([1, 2])), (True, 0)]):
+                v, f = rng.choice(pairs)
+                cases.append(make_case(rng, v, f, rng.choice([1, 2, 5]), neb, True, idx, path=PATHS[(j + q + ctx.seed) % 4] if q else "write",
+                                       add=r, stale=stale)); idx += 1
+        # the header had an extra dimension of its own, removed through header / LasData .remove_extra_dim(s) after the others were added
+        for j, r in enumerate(r_ for r_ in ADD_ROUTES if not r_.startswith("format.")):
+            v, f = rng.choice(pairs)
+            cases.append(make_case(rng, v, f, rng.choice([1, 2, 5]), rng.choice([1, 2]), True, idx, path=PATHS[(j + ctx.seed) % 4], add=r, stale=True)); idx += 1
     else:
         # records longer than format + described bytes: undocumented trailing bytes, with and without an Extra Bytes VLR,
         # every format, at least two points (a wrong record length shows from the second record on)
@@ -1226,10 +1257,36 @@ def laspy_write(case):
     hd = case["header"]
     path = case.get("path", "write").split(":")
     version, fmt = (path[1], int(path[2])) if path[0] == "convert" else (case["version"], case["format"])
-    h = laspy.LasHeader(version=version, point_format=fmt)
     caller = Caller(case.get("caller"))
-    assign_header(h, case, caller.conf)
     add = caller.conf["add"]
+    if add.startswith("format."):
+        from laspy.header import Version
+        pf = laspy.PointFormat(fmt)
+        for d in case["extra_dims"]:
+            pf.add_extra_dimension(caller.param(d))
+            caller.after_call()
+        stale = bool(caller.conf.get("stale_dim"))
+        if add == "format.ctor":
+            h = laspy.LasHeader(version=version, point_format=pf)
+        else:
+            if add == "format.setter":
+                h = laspy.LasHeader(version=version, point_format=fmt)
+            else:
+                h = laspy.LasHeader(version="1.4", point_format=6) if stale else laspy.LasHeader()
+            if stale:
+                h.add_extra_dim(laspy.ExtraBytesParams("before", "u2", description="the header's own, before"))
+            if add == "format.setter":
+                h.point_format = pf
+            else:
+                h.set_version_and_point_format(Version.from_str(version), pf)
+    else:
+        h = laspy.LasHeader(version=version, point_format=fmt)
+        stale = bool(caller.conf.get("stale_dim"))
+        if stale:
+            # the header has an extra dimension of its own first; it is removed (header / LasData .remove_extra_dim(s)) once the
+            # dimensions of the case exist
+            h.add_extra_dim(laspy.ExtraBytesParams("before", "u2", description="the header's own, before"))
+    assign_header(h, case, caller.conf)
     if caller.conf["buffers"] == "params-object":
         add = add.replace("add_extra_dims", "add_extra_dim")     # one object: the dimensions are added one call after the other
     n = case["n"]
@@ -1277,12 +1334,14 @@ def laspy_write(case):
             for d in case["extra_dims"]:
                 h.add_extra_dim(caller.param(d))
                 caller.after_call()
+        if stale:
+            (h.remove_extra_dims(["before"]) if add == "header.add_extra_dims" else h.remove_extra_dim("before"))
     known_api = caller.conf.get("known_as") == "api"
     for v in _vlr_objs(case["vlrs"], known_api):
         h.vlrs.append(v)
     las = laspy.LasData(h)
     las.points = laspy.ScaleAwarePointRecord.zeros(n, header=h)
-    if not add.startswith("header."):
+    if not add.startswith("header.") and not add.startswith("format."):
         if add == "las.add_extra_dims" and case["extra_dims"]:
             las.add_extra_dims([caller.param(d) for d in case["extra_dims"]])
             caller.after_call()
@@ -1294,6 +1353,8 @@ def laspy_write(case):
                     assign(las, [f"e{i}"])
                     assigned.add(f"e{i}")
                 caller.after_call()
+        if stale:
+            (las.remove_extra_dims(["before"]) if add == "las.add_extra_dims" else las.remove_extra_dim("before"))
     if path[0] == "convert":
         # assigned before the conversion: the extra dimensions and every dimension the source format has with the same type;
         # after it: the dimensions only the target format has
@@ -2149,9 +2210,10 @@ def resolve_oracle(inp):
 # ---------------------------------------------------------------------------------------------------
 ROUTES = ["append", "mmap", "copy", "edit"]
 TAILS = ["none", "tail", "waveform", "evlrs", "gap", "evlrs+tail"]
+EVLR_EDITS = ["clear", "rebind", "del-slice", "pop-all", "keep-first"]     # copy route: anything but keep-first = the writer is given no EVLR
 
 
-def make_session(rng, version, fmt, route, tailkind, idx):
+def make_session(rng, version, fmt, route, tailkind, idx, evlr_edit=None):
     minor = int(version[2])
     n = rng.choice([0, 1, 2, 5, 9]) if route in ("append", "copy") else rng.choice([1, 2, 5, 9])
     trailing = rng.choice([0, 0, 0, 3])
@@ -2205,6 +2267,15 @@ def make_session(rng, version, fmt, route, tailkind, idx):
         sess["points"] = gen_points(rng, fmt, ex, trailing, len(sel), True)
     else:
         sess["chunk_size"] = rng.choice([1, 2, 3, 100])
+    # read + edit + write / reader -> writer: the caller does not pass on everything the file had — the EVLRs are removed
+    # (cleared in place / the list re-bound / deleted by slice / the writer is not given any) or only the first one is kept: the
+    # new file must announce what it has, not what the file the header came from had
+    if route in ("edit", "copy") and base["evlrs"] and (evlr_edit is not None or rng.random() < 0.4):
+        sess["evlr_edit"] = evlr_edit or rng.choice(EVLR_EDITS)
+    # read + edit + write: the caller keeps only the first m points (las.points = las.points[:m]): every count and offset of the
+    # new file follows the records it has
+    if route == "edit" and rng.random() < (0.5 if evlr_edit else 0.25):
+        sess["keep_points"] = rng.choice([0, 1, n - 1, rng.randrange(n + 1)])
     return sess
 
 
@@ -2219,6 +2290,10 @@ def make_sessions(ctx):
     for _ in range(ctx.n(24, 800)):
         v, f = rng.choice(pairs)
         out.append(make_session(rng, v, f, rng.choice(ROUTES + ["append"]), rng.choice(TAILS), len(out)))
+    # every way of not passing on the EVLRs of the file, through read + edit + write and through reader -> writer
+    for j, ed in enumerate(EVLR_EDITS):
+        for route in ("edit", "copy"):
+            out.append(make_session(rng, "1.4", rng.choice(lasio.COMPAT["1.4"]), route, ["evlrs", "gap", "evlrs+tail"][(j + ctx.seed) % 3], len(out), evlr_edit=ed))
     return out
 
 
@@ -2244,6 +2319,10 @@ def session_expected(sess):
     elif sess["route"] in ("mmap", "edit"):
         for i, p in zip(sess["sel"], sess["points"]):
             pts[i] = list(p)
+    if sess.get("keep_points") is not None:
+        pts = pts[:sess["keep_points"]]
+    if sess.get("evlr_edit"):
+        base = dict(base, evlrs=base["evlrs"][:1] if sess["evlr_edit"] == "keep-first" else [])
     return dict(base, points=pts, n=len(pts))
 
 
@@ -2291,6 +2370,7 @@ def session_run(sess, original):
     """the laspy side of a session -> bytes of the resulting file"""
     import laspy
     from laspy.lasappender import LasAppender
+    from laspy.vlrs.vlrlist import VLRList
     base = session_base(sess)
     route = sess["route"]
     kind = {"open": "bytesio", "class": "bytesio", "path": "path", "fileobj": "fileobj"}[sess["entry"]]
@@ -2320,6 +2400,20 @@ def session_run(sess, original):
             if sess.get("confirm"):
                 confirm_header(las.header)
             _session_edit(las, sess, base)
+            if sess.get("keep_points") is not None:
+                las.points = las.points[:sess["keep_points"]]
+            ed = sess.get("evlr_edit")
+            if ed == "clear":
+                las.evlrs.clear()
+            elif ed == "rebind":
+                las.evlrs = VLRList()
+            elif ed == "del-slice":
+                del las.evlrs[:]
+            elif ed == "pop-all":
+                while len(las.evlrs):
+                    las.evlrs.pop()
+            elif ed == "keep-first":
+                las.evlrs = VLRList(list(las.evlrs)[:1])
             las.write(dest.target())
             return dest.value()
         # copy: reader -> writer, chunk by chunk
@@ -2332,7 +2426,10 @@ def session_run(sess, original):
                 with laspy.open(dest.target(), mode="w", header=rd.header, **dest.kw()) as w:
                     for pts in rd.chunk_iterator(sess["chunk_size"]):
                         w.write_points(pts)
-                    if rd.evlrs:
+                    ed = sess.get("evlr_edit")
+                    if ed == "keep-first":
+                        w.write_evlrs(VLRList(list(rd.evlrs)[:1]))
+                    elif rd.evlrs and not ed:
                         w.write_evlrs(rd.evlrs)
             return dest.value()
         finally:
@@ -2345,7 +2442,7 @@ def _session_edit(las, sess, base):
     how, sel = sess["how"], sess["sel"]
     if how == "column":
         # whole columns: the file's values with the selected points replaced
-        pts = session_expected(sess)["points"]
+        pts = session_expected({k: v for k, v in sess.items() if k != "keep_points"})["points"]
         assign_points(las, base, pts)
     elif how == "slice":
         a, b, st = sess["slice"]
@@ -2407,6 +2504,40 @@ def model_sessions(sessions, io_):
     return dis
 
 
+def model_writer_sessions(sessions, io_):
+    """the model of a header between two files (Model/RecordPlace.v writer_evlr_fields over Gen/GenC02.v partial_reset_evlrs /
+    write_evlrs_fields, translated from LasHeader.partial_reset / LasWriter.write_evlrs): the EVLR fields the new file's header
+    announces, given the fields the header had when it was read and the number of EVLRs the writer was given -> disagreements"""
+    todo = [s for s in sessions if s["id"] in io_ and s["route"] in ("edit", "copy")]
+    lines, impl = ["pf_sync"], []
+    for s in todo:
+        original, result, R0 = io_[s["id"]]
+        minor = int(R0["header"]["version"][2])
+        k = len(session_expected(s)["evlrs"])
+        if s["route"] == "edit":
+            given = k if minor >= 4 else None           # LasData.write hands its EVLR list (an empty one too) to the writer of a 1.4 file
+        else:
+            given = k if k else None
+        d = dict(py_dec_fields(py_hdr_layout(minor), result[:HS[minor]])[0]) if len(result) >= HS[minor] else None
+        if not isinstance(d, dict):
+            impl.append("no header")
+            lines.append("pf_sync")
+            continue
+        end = d["offset_to_point_data"] + d["point_count"] * d["point_size"]
+        lines.append(f"wevlr {minor} {R0['header']['start_of_first_evlr']} {R0['header']['number_of_evlrs']} {end} {'-' if given is None else given}")
+        impl.append(f"ok {d.get('start_of_first_evlr', 0)} {d.get('number_of_evlrs', 0)}")
+    outs = common.run_model(lines, name="c02")
+    dis = []
+    if outs[0] != "T":
+        dis.append({"kind": "header: a method that binds the point format does not rebuild the Extra Bytes VLR", "input": {"direction": "translated"},
+                    "model": "point_format_writers_sync = " + outs[0], "impl": "see Gen/GenC02.v point_format_writers"})
+    for s, o, i in zip(todo, outs[1:], impl):
+        if i != "no header" and o != i:
+            dis.append({"kind": f"session {s['route']}: EVLR fields of the written header", "input": {"direction": "session", "session": s},
+                        "model": o, "impl": i})
+    return dis
+
+
 def run_sessions(ref, sessions, io_=None):
     """-> per session list of mismatches"""
     res = [[] for _ in sessions]
@@ -2453,6 +2584,15 @@ def compare_session(sess, original, result, R0, R):
     verbs = ("the file had / was given", "the decoder finds at offset_to_point_data + i * record_length")
     out = compare_file(exp, R, label, exact_len=not in_place, verbs=verbs)
     if "error" in R:
+        # the decoder could not walk the file: say what the header block announces against what the file has
+        minor = int(exp["version"][2])
+        if minor >= 4 and len(result) >= HS[4]:
+            d = dict(py_dec_fields(py_hdr_layout(4), result[:HS[4]])[0])
+            if d["number_of_evlrs"] and d["start_of_first_evlr"] + 60 * d["number_of_evlrs"] > len(result):
+                out.append((label + "header announces EVLRs the file does not have",
+                            f"number_of_evlrs {d['number_of_evlrs']}, start_of_first_evlr {d['start_of_first_evlr']}; the file has {len(result)} bytes "
+                            f"(the original had {R0['header']['number_of_evlrs']} EVLRs at {R0['header']['start_of_first_evlr']}; "
+                            f"{len(exp['evlrs'])} were passed on)"))
         return out
     if in_place:
         # the file is still the producer's: its header block, VLR area and the bytes between them stay where and what they were
@@ -2483,7 +2623,7 @@ def session_sample(s):
     b = s["base"]
     return {"direction": "session", "route": s["route"], "version": b["version"], "format": b["format"], "points in the file": b["n"],
             "after the points": s["tailkind"], "entry": s["entry"], "appended": [len(c) for c in s.get("chunks", [])],
-            "edited": s.get("sel"), "extra_dims": [type_str(d["data_type"], d["nbytes"]) for d in b["extra_dims"]],
+            "edited": s.get("sel"), "evlrs": s.get("evlr_edit", "passed on"), "points kept": s.get("keep_points", "all"), "extra_dims": [type_str(d["data_type"], d["nbytes"]) for d in b["extra_dims"]],
             "undocumented_trailing_bytes": b.get("trailing", 0)}
 
 
@@ -2494,6 +2634,10 @@ def register_sessions(ctx, sessions):
         ctx.count(f"session route {s['route']}")
         ctx.count(f"session original: {s['tailkind']}")
         ctx.count(f"session entry {s['entry']}")
+        if s.get("evlr_edit"):
+            ctx.count(f"session {s['route']}: EVLRs of the file {s['evlr_edit']}")
+        if s.get("keep_points") is not None:
+            ctx.count("session edit: only the first points kept")
         k = sum(len(c) for c in s.get("chunks", [])) + len(s.get("sel", []))
         ctx.case(("session", s["route"], s["tailkind"], b["version"], b["format"], tuple(case_ebs(b)), b["header"]["uuid"], k),
                  nontrivial=k > 0 or b["n"] > 0, sample=session_sample(s))
@@ -3438,6 +3582,7 @@ def register(ctx, direction, cases):
         ctx.count("files with EVLRs", 1 if c["evlrs"] else 0)
         if "caller" in c:
             ctx.count(f"header assigned: {c['caller'].get('header_route', 'plain')}")
+            ctx.count(f"extra dimensions added through {c['caller'].get('add')}" + (" (header had its own before)" if c['caller'].get('stale_dim') else ""))
         for place in ("vlrs", "evlrs"):
             for x in c[place]:
                 k = known_kind(x[0], x[1])
@@ -3466,7 +3611,12 @@ def correspond(ctx):
         "(iv) sessions on reference-encoded originals (after the points: nothing / padding shorter, equal, longer than what is appended / internal "
         "waveform packets / EVLRs / gap + EVLRs / EVLRs + padding; every (version, format) appended to once, plus one of mmap-edit / copy / read-edit-write "
         "in turn, plus random ones): appender entry points x record classes x chunkings; edits indexed / sliced / whole column; the reference decoder on "
-        "the result and the model of append_session / edit_record on the same bytes. "
+        "the result and the model of append_session / edit_record on the same bytes; read-edit-write / copy sessions on files with EVLRs where the "
+        "caller drops them (clear / rebind / del [:] / pop / writer not given any / first only: each once per route, 40% of the random ones) or keeps "
+        "only the first m points; model of the EVLR fields of the written header (writer_evlr_fields) against the file. "
+        "Extra dimensions of (i) also through a PointFormat object handed to LasHeader(..) / the point_format setter / "
+        "set_version_and_point_format (each: fresh header, header with a dimension of its own, the latter with no new dimension), and with a "
+        "dimension of the header's own removed by header / LasData .remove_extra_dim(s) on every add route. "
         "(v) records and headers from different sources: every relation (same, permuted, swapped-names, retyped to an equal size, rescaled, "
         "renamed, redescribed, resplit, other-format padded to the same length, header grown after the record was made) through every "
         "route (open-w, LasWriter, LasData-init, points-setter, open-a, LasAppender), record sources and header sources in turn, plus random "
@@ -3530,6 +3680,7 @@ def correspond(ctx):
                 f_["model"] = "the original file's values, then the values assigned to the appended / edited points, each record at offset_to_point_data + i * record_length"
                 dis.append(f_)
     dis += model_sessions(S, io_)
+    dis += model_writer_sessions(S, io_)
     ctx.traces += len(io_)
     # records and headers from different sources: the specification decoder on what laspy accepted; the model of the hand-over
     MX = _CASES["m"]
